@@ -253,7 +253,7 @@ TRUSTED_BASE = [
 ]
 
 def load_known(pid):
-    p = os.path.join(ROOT, "known_findings.json")
+    p = os.path.join(ROOT, "known_findings", pid + ".json")
     if not os.path.exists(p): return {}
     out = {}
     for e in json.load(open(p)).get("findings", []):
